@@ -144,6 +144,31 @@ Dup(d, k) == <<Scn(d, 70016, HS(70016) \o <<M(k), M("ping")>>, FALSE, <<1>>, <<>
 \* a node dialling itself while the sibling's version write is still in flight
 Sib(d, p1) == <<[Scn(d, 70016, <<R("ver", 70016, TRUE), M("verack"), M("ping")>>, FALSE, p1, <<>>, <<>>) EXCEPT !.sib = TRUE],
                 St("lockstep", "hs", "hs", "hs", "none", FALSE, 0)>>
+\* more messages than outputQueue holds (50) from six callers while the handshake
+\* is pending: the callers are parked on the full queue, past their Connected()
+\* check, when the peer is disconnected; their messages get in behind the shutdown
+\* drain and the callers empty the queue themselves, other callers' messages
+\* included.  Every message has its own done channel.
+Ids(a) == [j \in 1..10 |-> a + j]
+Flood(d, scr) ==
+  << [dir |-> d, lpv |-> 70016, script |-> scr, rclose |-> FALSE,
+      plan |-> [s1 |-> Ids(0), s2 |-> Ids(10), s3 |-> Ids(20), s4 |-> Ids(30), s5 |-> Ids(40), s6 |-> Ids(50)],
+      invs |-> <<>>, disc |-> FALSE, net |-> "sim", loop |-> FALSE, sib |-> FALSE],
+     [feed |-> "eager", sendAt |-> [s1 |-> "start", s2 |-> "start", s3 |-> "start", s4 |-> "start", s5 |-> "start", s6 |-> "start"],
+      invAt |-> "hs", discAt |-> "full", hold |-> FALSE, stallRead |-> 0] >>
+\* six callers, one message each with its own done channel, all held (scheduling
+\* gate of the peer package's verif hook) between their Connected() test and their
+\* send until the disconnect is through, then between the send and their look at
+\* the quit channel; one is let go first: it empties the queue, the messages of the
+\* other callers included.
+One(a) == <<a>>
+Gated(d, scr) ==
+  << [dir |-> d, lpv |-> 70016, script |-> scr, rclose |-> FALSE,
+      plan |-> [s1 |-> One(1), s2 |-> One(2), s3 |-> One(3), s4 |-> One(4), s5 |-> One(5), s6 |-> One(6)],
+      invs |-> <<>>, disc |-> FALSE, net |-> "sim", loop |-> FALSE, sib |-> FALSE],
+     [feed |-> "eager", sendAt |-> [s1 |-> "start", s2 |-> "start", s3 |-> "start", s4 |-> "start", s5 |-> "start", s6 |-> "start"],
+      invAt |-> "hs", discAt |-> "gated", hold |-> FALSE, stallRead |-> 0] >>
+FloodCore == << Flood("in", <<>>), Gated("in", <<>>), Gated("out", <<>>), Gated("out", <<Ver(70016)>>), Gated("in", <<Ver(70015)>>) >>
 MoreCore == << Dup("in", "verack"), Dup("out", "verack"), Dup("in", "ver"), Dup("out", "sendaddrv2"),
                Sib("in", <<1>>), Sib("out", <<>>), Sib("in", <<>>) >>
 NetCore == << OnNet(Probe("in", "wrongmagic"), "main", TRUE),     OnNet(Probe("out", "wrongmagic"), "main", FALSE),
@@ -200,8 +225,8 @@ Core == <<
 
 PickCore ==
   /\ stage = "core"
-  /\ \E c \in 1..Len(Core \o NetCore \o MoreCore) :
-        scn' = (Core \o NetCore \o MoreCore)[c][1] /\ steer' = (Core \o NetCore \o MoreCore)[c][2]
+  /\ \E c \in 1..Len(Core \o NetCore \o MoreCore \o FloodCore) :
+        scn' = (Core \o NetCore \o MoreCore \o FloodCore)[c][1] /\ steer' = (Core \o NetCore \o MoreCore \o FloodCore)[c][2]
   /\ stage' = "done"
   /\ UNCHANGED <<script, good, tailLeft>>
 
